@@ -1,3 +1,12 @@
 -- Root of the library: importing every property module makes `lake build` re-check everything.
-import ExprModel.Props.C14
 import ExprModel.Props.C05
+import ExprModel.Props.C06
+import ExprModel.Props.C07
+import ExprModel.Props.C10
+import ExprModel.Props.C12
+import ExprModel.Props.C13
+import ExprModel.Props.C14
+import ExprModel.Props.C15
+import ExprModel.Props.C16
+import ExprModel.Props.C17
+import ExprModel.Props.C18
